@@ -35,7 +35,16 @@ def gen_scenario(rng, tier, prepop_kinds=()):
             layout = "swarm"
         elif c < 0.125:
             layout = "utf8hash"
-        if layout == "boundary":
+        elif c < 0.15 and not prepop_kinds:
+            layout, version = "cluster", 1
+        if layout == "cluster":
+            # a dozen small files inside ONE v1 piece, each with a same-named same-sized decoy (added below): the right
+            # combination of candidates is one of several thousand
+            n = rng.randint(11, 13)
+            files = [[f"c/{j:02d}.dat", rng.choice([60, 100, 300, 7]), rng.randrange(1 << 30)] for j in range(n)]
+            files.append(["z-tail.bin", rng.choice([pl, 100]), rng.randrange(1 << 30)])
+            tree = {"name": names[k], "single": False, "files": files, "dirs": [], "layout": "cluster"}
+        elif layout == "boundary":
             n = rng.randint(2, 5)
             files = [[f"b{j}", rng.choice([pl, 2 * pl, 3 * pl, pl, 2 * pl + rng.choice([0, 0, 9, 1]), 77]),
                       rng.randrange(1 << 30)] for j in range(n)]
@@ -90,6 +99,10 @@ def gen_scenario(rng, tier, prepop_kinds=()):
             f = rng.randrange(len(torrents[t]["tree"]["files"]))
             decoys.append({"torrent": t, "file": f, "kind": rng.choice(["same-size", "same-size", "diff-size", "same-size-prefix"]),
                            "cseed": rng.randrange(1 << 30), "dir": rng.randrange(nsearch)})
+    for t, tt in enumerate(torrents):
+        if tt["tree"]["layout"] == "cluster":
+            decoys += [{"torrent": t, "file": f, "kind": "same-size", "cseed": rng.randrange(1 << 30), "dir": rng.randrange(nsearch)}
+                       for f in range(len(tt["tree"]["files"]) - 1)]
     prepop = []
     for kind in prepop_kinds:
         t = rng.randrange(ntor)
